@@ -401,9 +401,31 @@ func InputArg(in Input) argmapper.Arg {
 // list (inputs, converters, generators, logger) for a call. Supplied tokens
 // are entered into the ledger.
 func (w *World) Setup(sc *Scenario) (target *argmapper.Func, args []argmapper.Arg, err error) {
-	target, err = w.Realize(&sc.Target)
+	var defaults []argmapper.Arg
+	if sc.TargetDefault {
+		defaults = append(defaults, argmapper.FuncName("target"))
+	}
+	target, err = w.Realize(&sc.Target, defaults...)
 	if err != nil {
 		return nil, nil, fmt.Errorf("target: %w", err)
+	}
+	if len(sc.PriorInputs) > 0 {
+		// an earlier call of the same Func with other inputs; its outcome
+		// and events are not part of the case under test
+		prior := *sc
+		prior.Inputs, prior.PriorInputs, prior.Malformed = sc.PriorInputs, nil, nil
+		pargs, perr := w.Args(&prior)
+		if perr != nil {
+			return nil, nil, perr
+		}
+		var o Outcome
+		Protect(&o, func() { target.Call(pargs...) })
+		w.mu.Lock()
+		w.Events = nil
+		for k := range w.Execs {
+			delete(w.Execs, k)
+		}
+		w.mu.Unlock()
 	}
 	args, err = w.Args(sc)
 	return target, args, err
